@@ -56,8 +56,11 @@ PROP = {
                   "exactly by the model on printer output, free layouts, grammar documents, damaged texts and all "
                   "pairs of a small scope; the monitor judges compare_recon_values / recon_hash against the real "
                   "parser + Value::eq on every pair, and the real MapOperationQueue on key sets.",
-    "level_note": "Labelled partial: 'no false split on all valid texts' (cmp_complete) and 'equal printer outputs hash "
-                  "alike' are tied by differential testing + exhaustive small scope only (statements kept open); "
+    "level_note": "Labelled partial: 'no false split on all valid texts' (C15_cmp_complete_open) is proved for printer output, for "
+                  "any two layouts chosen independently on the two sides (C15_cmp_complete_mixed_layouts) and for every text whose "
+                  "event stream is a layout of its value (C15_cmp_complete_layout_texts / _partial: white space, separators, radix, "
+                  "quoting free); the remaining gap (the automaton's events of EVERY valid text are such a layout) is tied by "
+                  "differential testing + exhaustive small scope only; "
                   "floats are exact decimals, so texts with a float literal of more than 15 significant digits or a "
                   "3-digit exponent are outside the model (answered out-of-fragment by harness and model alike); the "
                   "text -> events part of the model (nom automaton) is tied by differential testing, the theorems about "
